@@ -492,8 +492,36 @@ func (w *world) faults(t *rt.Tape, res *core.Result, smp *sample) *core.Failure 
 	for i := 0; i < n; i++ {
 		m := append([]byte(nil), data...)
 		var desc string
-		kind := t.Choose(rt.SFault, 8)
+		kind := t.Choose(rt.SFault, 10)
 		switch kind {
+		case 8, 9: // copy one field over a neighbouring field of the same record
+			if format == 0 {
+				// 4-byte fields: copy the word at a over the word at a +- 4/8 (byte-aligned to any offset)
+				a := t.Choose(rt.SFault, max(1, len(m)-12))
+				if t.Choose(rt.SFault, 2) == 0 && len(m) > 40 {
+					a = len(m) - 13 - t.Choose(rt.SFault, min(len(m)-13, 13*base.NumGates+1))
+					if a < 0 {
+						a = 0
+					}
+				}
+				d := []int{4, 8, -4, -8}[t.Choose(rt.SFault, 4)]
+				if a+d >= 0 && a+d+4 <= len(m) && a+4 <= len(m) {
+					copy(m[a+d:a+d+4], data[a:a+4])
+				}
+				desc = fmt.Sprintf("copy the 4 bytes at %d over those at %d", a, a+d)
+			} else {
+				lines := strings.Split(string(m), "\n")
+				li := t.Choose(rt.SFault, len(lines))
+				f := strings.Fields(lines[li])
+				if len(f) >= 2 {
+					from, to := t.Choose(rt.SFault, len(f)), t.Choose(rt.SFault, len(f))
+					f[to] = f[from]
+					lines[li] = strings.Join(f, " ")
+				}
+				m = []byte(strings.Join(lines, "\n"))
+				desc = fmt.Sprintf("line %d: copy a field over another field", li)
+			}
+			res.Faults["field-copy"]++
 		case 0: // every truncation length in the window
 			cut := (winStart + i) % len(data)
 			m = m[:cut]
